@@ -41,6 +41,7 @@ Healthy(m) == ~m.hard /\ ~m.soft /\ ~m.rfault /\ ~m.intr
 Expired(m, i) == m.h.idle > 0 /\ m.start - m.socks[i].last > m.h.idle
 
 Busy(m) == m.phase = "busy"
+Abandoned(m, i) == Known(m, i) /\ m.socks[i].intrclose
 
 (* clauses common to send and recv *)
 IoClauses(m, ev) ==
@@ -84,12 +85,16 @@ CMonClauses(m, ev) ==
             <<"C09-healthy-connection-is-reused-not-discarded",
                   (Known(m, ev.s) /\ m.socks[ev.s].st = "connected" /\ ~m.socks[ev.s].faulted) =>
                      (~Healthy(m) \/ m.kind # "data" \/ ~Busy(m) \/ Expired(m, ev.s))>> >>
+    [] ev.e = "closeintr" ->       \* an interruption arrived inside close() before the descriptor was closed
+         << <<"close-known-socket", Known(m, ev.s)>> >>
     [] ev.e \in {"ret", "raise"} ->
+         (* a connection whose close() was interrupted stays open through no fault of the client: what matters is *)
+         (* that it is never used again (the reply-ownership clauses of the following calls)                      *)
          << <<"boundary-inside-a-call", Busy(m) /\ ev.c = m.c>>,
             <<"C01-no-reply-left-unread-on-a-connection-that-stays-open",
-                  \A i \in DOMAIN ev.pend : ev.pend[i][2] = 0>>,
+                  \A i \in DOMAIN ev.pend : ev.pend[i][2] = 0 \/ Abandoned(m, ev.pend[i][1])>>,
             <<"C01-no-request-left-half-sent-on-a-connection-that-stays-open",
-                  \A i \in DOMAIN ev.pend : ev.pend[i][3] = 0>>,
+                  \A i \in DOMAIN ev.pend : ev.pend[i][3] = 0 \/ Abandoned(m, ev.pend[i][1])>>,
             <<"C06-failed-socket-closed-by-the-end-of-the-call",
                   \A i \in OpenIds(m) : ~m.socks[i].faulted>>,
             <<"C06-no-half-built-socket-left-open",
@@ -108,7 +113,7 @@ CMonClauses(m, ev) ==
             <<"C06-every-socket-closed-after-close", OpenIds(m) = {}>> >>
     [] OTHER -> << <<"known-event", FALSE>> >>
 
-NewSock(wrapped) == [st |-> "created", wrapped |-> wrapped, faulted |-> FALSE, srv |-> "none", last |-> 0]
+NewSock(wrapped) == [st |-> "created", wrapped |-> wrapped, faulted |-> FALSE, srv |-> "none", last |-> 0, intrclose |-> FALSE]
 Mark(m, s, cond) == IF cond /\ Known(m, s) THEN [m.socks EXCEPT ![s].faulted = TRUE] ELSE m.socks
 CreationPhase(m, s) == Known(m, s) /\ m.socks[s].st = "created"
 
@@ -157,6 +162,10 @@ CMonEffect(m, ev) ==
            THEN [m EXCEPT !.socks = [m.socks EXCEPT ![ev.s].st = "closed"],
                           !.hard = m.hard \/ IsFault(ev.fault)]
            ELSE m
+    [] ev.e = "closeintr" ->
+         IF Known(m, ev.s) THEN [m EXCEPT !.socks = [m.socks EXCEPT ![ev.s].intrclose = TRUE, ![ev.s].faulted = TRUE],
+                                          !.hard = TRUE, !.intr = TRUE]
+         ELSE m
     [] ev.e \in {"ret", "raise"} ->
          [m EXCEPT !.phase = "idle",
                    !.socks = [i \in DOMAIN m.socks |->
